@@ -176,7 +176,7 @@ func PanicWhere() (where string, harness bool) {
 			seenPanic = true
 		} else if seenPanic && !strings.HasPrefix(fn, "runtime.") {
 			if strings.HasPrefix(fn, gopkt) {
-				return strings.TrimPrefix(fn, gopkt+"/"), false
+				return strings.TrimPrefix(strings.TrimPrefix(fn, gopkt+"/"), gopkt+"."), false
 			}
 			if strings.HasPrefix(fn, "verif/") {
 				return fn, true
